@@ -480,6 +480,10 @@ func (x *MessageCertificateResults) Check() lib.ErrorI {
 	if err := x.Qc.CheckBasic(); err != nil {
 		return err
 	}
+	// only a finalized (commit) certificate carries results: the votes of the other phases do not sign them
+	if x.Qc.Header.Phase != lib.Phase_PRECOMMIT_VOTE {
+		return lib.ErrWrongPhase()
+	}
 	results := x.Qc.Results
 	if results == nil {
 		return ErrEmptyCertificateResults()
